@@ -30,7 +30,14 @@ def main():
         if mod is None or pid not in R:
             na.append({"property_id": pid, "reason": "check not built yet in this round (runtime monitoring applies; see DESIGN.md section 7)"})
             continue
-        r = R[pid]
+        r = dict(R[pid])
+        from . import parcases
+
+        extra = " Process environments: one shard in eight runs under `python -O`, one with DEBUG logging on."
+        if pid in parcases.BY_PROPERTY:
+            extra = (" Several-threads workload: independent objects used from 2-3 threads interleaved by the deterministic scheduler at "
+                     "statement / bytecode-instruction granularity inside every auditok module must give the single-threaded results.") + extra
+        r["text"] = r["text"] + extra
         checks.append({
             "property_id": pid,
             "quick_cmd": f"./run {pid} quick",
